@@ -59,6 +59,11 @@ type Oracles struct {
 
 	ackedDeliveries map[delivKey]int
 	crashed         bool
+	ctl           *ctlState
+	rc            *reconfState
+	expectGiveUp  bool
+	expectRestart bool
+	runEnded      bool
 	statusWriteFailed bool
 	statusWriteFailedEver bool
 	bootInc         map[int]bool // incarnations whose first open per source was checked
@@ -76,6 +81,7 @@ func newOracles() *Oracles {
 		dlqOK: map[delivKey]int{}, dlqWrites: map[delivKey]int{}, dlqFailed: map[delivKey]int{}, dlqState: map[delivKey]string{}, dlqPending: map[string][]delivKey{}, dlqFaulted: map[string]bool{},
 		handled: map[string]map[int]bool{}, durIdx: map[string]int{}, durSet: map[string]bool{},
 		lastWrite: map[string][2]string{}, processed: map[string]int{}, ackedDeliveries: map[delivKey]int{},
+		ctl: newCtlState(), rc: newReconfState(),
 		bootInc: map[int]bool{}, firstOpen: map[string]bool{}, opens: map[string]int{}, teardowns: map[string]int{},
 	}
 }
@@ -228,6 +234,8 @@ func (o *Oracles) isHandled(w *World, src string, idx int) bool {
 func (o *Oracles) onCrash(w *World) { o.crashed = true }
 
 func (o *Oracles) onEvent(w *World, e *Event) {
+	o.onControlEvent(w, e)
+	o.onReconfEvent(w, e)
 	hostile := w.cfg.Hostile
 	hostileSrc := w.cfg.HostileSrc
 	switch e.Kind {
@@ -494,8 +502,20 @@ func (o *Oracles) quiescent(w *World) bool {
 	if st, _, ok := w.db.durableStatus(PipelineID); ok && st != 1 && st != 5 {
 		return true
 	}
-	for _, s := range w.srcs {
-		if s.ackedMax < len(s.recs) {
+	return o.allDrained(w)
+}
+
+// allDrained: every source has either seen all of its records acknowledged at some time, or
+// its live session has nothing left to emit and nothing outstanding.
+func (o *Oracles) allDrained(w *World) bool {
+	for id, s := range w.srcs {
+		if s.ackedMax >= len(s.recs) {
+			continue
+		}
+		if s.sess == nil || s.sess.closed || s.sess.inc != w.inc || s.sess.next < len(s.recs) {
+			return false
+		}
+		if st := o.sess[sessKey(id, s.sess.n)]; st == nil || st.acked < len(st.emitted) {
 			return false
 		}
 	}
@@ -596,16 +616,38 @@ func (o *Oracles) stopRefused(w *World, how string, err error) {
 }
 
 func (o *Oracles) finalChecks(w *World) {
+	o.finalControlChecks(w)
 	// C11 liveness: the run was abandoned because simulated time ran out while nothing
 	// was parked at any seam (every plugin and store call had been served, no stall
 	// fault) and the pipeline is still reported as running: the run can never end.
 	idleMs := w.now() - w.now0()
-	if !w.finished && w.stallCount() == 0 && w.worldParked() == 0 && w.capReason == "time" && w.bootOK[w.inc] && idleMs > 30*60*1000 {
+	if !w.finished && w.stallCount() == 0 && w.worldParkedEnabled() == 0 && w.capReason == "time" && w.bootOK[w.inc] && idleMs > 30*60*1000 {
 		st, _, ok := w.db.durableStatus(PipelineID)
 		open := o.openSessions(w)
+		owed := o.unackedEmitted(w)
+		// C11: a control call that never returns although the world owes the engine nothing
+		for cl, seq := range o.ctl.inFlight {
+			note := o.ctl.callNote[cl]
+			ms := st
+			if w.memStatus != nil && w.memStatus() != 0 {
+				ms = w.memStatus()
+			}
+			if strings.HasPrefix(note, "wait") && (st == 1 || st == 5 || ms == 1 || ms == 5) {
+				continue // waiting for a pipeline that is (reported) alive is what wait does
+			}
+			w.violate("C11", "call-never-returns", fmt.Sprintf("control call %q (event #%d) has not returned after %d ms of simulated idleness; every plugin and store call has been served (stored status: %s)", strings.TrimSpace(note), seq, idleMs, statusName(st)))
+		}
+		ms := st
+		if w.memStatus != nil && w.memStatus() != 0 {
+			ms = w.memStatus()
+		}
 		switch {
-		case ok && st == 1 && len(open) > 0 && !o.statusWriteFailedEver:
+		case ok && (st == 2 || st == 3 || st == 4) && ms == st && len(open) > 0 && !o.statusWriteFailedEver && len(o.ctl.inFlight) == 0:
+			w.violate("C11", "plugin-session-left-open", fmt.Sprintf("the pipeline is %s and nothing is in flight, yet plugin sessions %v opened by it were never torn down (idle for %d ms); the connectors are not released, the pipeline cannot be started again", statusName(st), open, idleMs))
+		case ok && st == 1 && len(open) > 0 && !o.statusWriteFailedEver && w.worldParked() == 0:
 			w.violate("C11", "run-never-ends", fmt.Sprintf("pipeline is still running with open plugin sessions %v after %d ms of simulated idleness; every plugin and store call has been served and no node is waiting for the outside world", open, idleMs))
+		case ok && st == 1 && len(open) > 0 && !o.statusWriteFailedEver && owed != "":
+			w.violate("C10", "silent-stall", fmt.Sprintf("pipeline has been idle for %d ms while still reported running: %s; every plugin and store call has been served, the sources have nothing more to give and the destinations owe no acknowledgment", idleMs, owed))
 		case ok && st == 5 && !o.statusWriteFailedEver:
 			w.violate("C10", "recovery-never-resumes", fmt.Sprintf("pipeline is still recovering after %d ms of simulated idleness (max back-off %d ms); every plugin and store call has been served", idleMs, w.cfg.Recovery.MaxDelayMs))
 		}
@@ -647,4 +689,19 @@ func stampProcs(s string) []string {
 		out = append(out, strings.SplitN(f, ":", 2)[0])
 	}
 	return out
+}
+
+// unackedEmitted describes records of the live sessions that were handed to the engine and never acknowledged.
+func (o *Oracles) unackedEmitted(w *World) string {
+	for _, sc := range w.cfg.Sources {
+		sys := w.srcs[sc.ID]
+		if sys == nil || sys.sess == nil || sys.sess.closed || sys.sess.inc != w.inc {
+			continue
+		}
+		s := o.sess[sessKey(sc.ID, sys.sess.n)]
+		if s != nil && s.acked < len(s.emitted) {
+			return fmt.Sprintf("source %s session %d emitted %d records and received acknowledgments for %d", sc.ID, sys.sess.n, len(s.emitted), s.acked)
+		}
+	}
+	return ""
 }
